@@ -25,13 +25,19 @@ DevStep(st, dv, o) == IF NeedsRecv(o) /\ ~Alloc(st, o.x) THEN R(st, "TypeError")
 Explains(st, dv, ob, act) == /\ (ob.o = "fproto" \/ Alloc(st, ob.x))
                              /\ SameObs(st, dv, ob, Observe(st, dv, ob), act)
 AnyOf(S) == CHOOSE d \in S : TRUE
+\* when no single deviation is necessary (two of them explain the mismatch independently) name the most specific one
+DevPriority == <<"Dev_FnNotObject", "Dev_EnumSkipsAccessors", "Dev_DefinePropMerge", "Dev_GetterFirst", "Dev_SetterFirst",
+                 "Dev_DeleteKeepsAccessor", "Dev_InOwnOnly", "Dev_ComputedKeyLiteral", "Dev_FnProtoAssign", "Dev_ProtoCycle",
+                 "Dev_CtorEnumerable", "Dev_FnProtoNoObjectProto">>
+Preferred(S) == LET J == {j \in 1..Len(DevPriority) : DevPriority[j] \in S}
+                IN IF J = {} THEN AnyOf(S) ELSE DevPriority[CHOOSE j \in J : \A m \in J : j <= m]
 
 \* verdict of one recorded observation: <<"pass", "">> | <<"known", dev>> | <<"violation", "">>
 ObsVerdict(sr, sd, alt, dv, ob, act) ==
   IF SameObs(sr, {}, ob, Observe(sr, {}, ob), act) THEN <<"pass", "">>
   ELSE IF Explains(sd, dv, ob, act)
        THEN LET need == {d \in dv : ~Explains(alt[d], dv \ {d}, ob, act)}      \* deviations the explanation cannot do without
-            IN <<"known", IF need # {} THEN AnyOf(need) ELSE "?" \o AnyOf(dv)>>     \* "?": no single deviation is necessary
+            IN <<"known", IF need # {} THEN AnyOf(need) ELSE "?" \o Preferred(dv)>>     \* "?": no single deviation is necessary
   ELSE <<"violation", "">>
 \* calibration (records with cal = TRUE): the engine followed the reference where the as-is model predicts
 \* otherwise - the deviations whose removal makes the as-is model agree are evidence of a repaired defect
@@ -70,7 +76,7 @@ TStep ==
            sv == IF a.out = OutStr(rr.out) THEN <<"pass", "">>
                  ELSE IF a.out = OutStr(rd.out)
                       THEN LET need == {d \in dv : a.out # OutStr(ra[d].out)}
-                           IN <<"known", IF need # {} THEN AnyOf(need) ELSE "?" \o AnyOf(dv)>>
+                           IN <<"known", IF need # {} THEN AnyOf(need) ELSE "?" \o Preferred(dv)>>
                  ELSE <<"violation", "">>
            anti_s == IF a.out = OutStr(rr.out) /\ a.out # OutStr(rd.out) THEN {d \in dv : OutStr(ra[d].out) = a.out} ELSE {}
            \* adopt: when the engine threw although neither model does, the step had no effect
